@@ -50,6 +50,18 @@ func c06run(ctx *vc.Ctx) {
 	c06explore(ctx, "queries/2callers/stmt", true, 2, b, true)
 	c06exploreIn(ctx, "user-events/2callers/after-leave", false, 2, b-1, true, true)
 	c06exploreIn(ctx, "queries/2callers/after-leave", true, 2, b-1, true, true)
+	// every pair of call options (sequential and concurrent, synchronisation-level points)
+	for _, o1 := range c06options {
+		for _, o2 := range c06options {
+			ev := (o1 == "plain" || o1 == "no-broadcast-coalesce") && (o2 == "plain" || o2 == "no-broadcast-coalesce")
+			if o1 != "no-broadcast-coalesce" && o2 != "no-broadcast-coalesce" {
+				c06exploreOpt(ctx, "queries/options/"+o1+"+"+o2, true, 2, b-1, false, false, []string{o1, o2})
+			}
+			if ev && (o1 != "plain" || o2 != "plain") {
+				c06exploreOpt(ctx, "user-events/options/"+o1+"+"+o2, false, 2, b-1, false, false, []string{o1, o2})
+			}
+		}
+	}
 	if ctx.Thorough() {
 		c06explore(ctx, "user-events/2callers/sync", false, 2, 4, false)
 		c06explore(ctx, "queries/2callers/sync", true, 2, 4, false)
@@ -65,6 +77,30 @@ func c06explore(ctx *vc.Ctx, name string, queries bool, callers, bound int, step
 // left: the calls are made on a node whose Leave has completed (it lingers as SerfLeft; UserEvent and Query
 // are still accepted there and their messages still go out, so their times must still be distinct).
 func c06exploreIn(ctx *vc.Ctx, name string, queries bool, callers, bound int, steps bool, left bool) {
+	c06exploreOpt(ctx, name, queries, callers, bound, steps, left, nil)
+}
+
+// c06options: the call options that select different paths through Query / UserEvent.
+var c06options = []string{"plain", "filtered-out-by-name", "filtered-in-by-name", "filtered-out-by-tag", "ack+relay", "no-broadcast-coalesce"}
+
+func c06param(opt string) *serf.QueryParam {
+	p := &serf.QueryParam{Timeout: time.Second}
+	switch opt {
+	case "filtered-out-by-name":
+		p.FilterNodes = []string{"b"}
+	case "filtered-in-by-name":
+		p.FilterNodes = []string{"a", "b"}
+	case "filtered-out-by-tag":
+		p.FilterTags = map[string]string{"role": "^nobody$"}
+	case "ack+relay":
+		p.RequestAck = true
+		p.RelayFactor = 1
+	}
+	return p
+}
+
+// opts: per caller, the option set of its call (nil = plain).
+func c06exploreOpt(ctx *vc.Ctx, name string, queries bool, callers, bound int, steps bool, left bool, opts []string) {
 	var calls []*c06call
 	var foreign []*c06foreign
 	var clock int
@@ -106,10 +142,14 @@ func c06exploreIn(ctx *vc.Ctx, name string, queries bool, callers, bound int, st
 			hs = append(hs, vsched.Spawn(c.name, func() {
 				clock++
 				c.begin = clock
+				opt := "plain"
+				if i < len(opts) {
+					opt = opts[i]
+				}
 				if queries {
-					_, c.err = n.S.Query(c.name, nil, &serf.QueryParam{Timeout: time.Second})
+					_, c.err = n.S.Query(c.name, nil, c06param(opt))
 				} else {
-					c.err = n.S.UserEvent(c.name, []byte("p"), false)
+					c.err = n.S.UserEvent(c.name, []byte("p"), opt == "no-broadcast-coalesce")
 				}
 				clock++
 				c.end = clock
